@@ -11,22 +11,35 @@
   The `chain` engine asks the driver to evaluate `Pre` on every generated case.
 -/
 import MdModel.Walk.Cfi
+import MdModel.Walk.WinWalk
 namespace MdModel.Walk
 open MdModel
 
 inductive Technique where
-  | fp | cfi | scan
+  | fp | cfi | scan | win | mixed
   deriving DecidableEq, Repr, Inhabited
 
 def Technique.ofStr : String → Option Technique
-  | "fp" => some .fp | "cfi" => some .cfi | "scan" => some .scan | _ => none
+  | "fp" => some .fp | "cfi" => some .cfi | "scan" => some .scan
+  | "win" => some .win | "mixed" => some .mixed | _ => none
 
-/-- an expected caller frame -/
+/-- an expected caller frame; `tech` / `regs` are used by the per-frame (`win`, `mixed`) chains:
+    the technique the frame is found by and the recovered callee-saved registers other than the
+    frame pointer -/
 structure Exp where
   ret : Nat
   sp : Nat
   fp : Option Nat
+  tech : String := ""
+  regs : List (String × Nat) := []
   deriving Repr, Inhabited
+
+def parseExpRegs (s : String) : Option (List (String × Nat)) :=
+  if s = "-" then some []
+  else (s.splitOn "/").mapM fun a =>
+    match a.splitOn "=" with
+    | [n, v] => v.toNat?.map fun x => (n, x)
+    | _ => none
 
 def parseExp (s : String) : Option (List Exp) :=
   if !s.startsWith "exp:" then none
@@ -40,6 +53,17 @@ def parseExp (s : String) : Option (List Exp) :=
         let sp ← sp.toNat?
         let fp ← if fp = "-" then some none else fp.toNat?.map some
         some { ret := r, sp := sp, fp := fp }
+      | [r, sp, fp, _, _, t] => do
+        let r ← r.toNat?
+        let sp ← sp.toNat?
+        let fp ← if fp = "-" then some none else fp.toNat?.map some
+        some { ret := r, sp := sp, fp := fp, tech := if t = "-" then "" else t }
+      | [r, sp, fp, _, _, t, regs] => do
+        let r ← r.toNat?
+        let sp ← sp.toNat?
+        let fp ← if fp = "-" then some none else fp.toNat?.map some
+        let regs ← parseExpRegs regs
+        some { ret := r, sp := sp, fp := fp, tech := if t = "-" then "" else t, regs := regs }
       | _ => none
 
 /-- name under which the frame pointer lives in `Ctx.rest` -/
@@ -200,5 +224,7 @@ def Pre (w : World) (env : Env) (a : Arch) (os : Os) (t : Technique) (mem : Mem)
   | .fp => noCfi w && ctx.valid.isNone && preFp a os env.mask mem ctx.sp (ctx.raw a a.fpName) chain
   | .scan => noCfi w && preScan env a os mem ctx chain
   | .cfi => preCfi w a os mem ctx chain
+  -- per-frame techniques need the STACK WIN records: see `PreW` (Walk/LayoutMixed.lean)
+  | .win | .mixed => false
 
 end MdModel.Walk
